@@ -23,7 +23,7 @@ def rng_for(seed, *tags):
 
 
 def make_source(rng, ny, nx, kind=None):
-    kind = kind or rng.choice(["dense", "sparse", "smooth", "impulse", "blob"])
+    kind = kind or rng.choice(["dense", "sparse", "smooth", "impulse", "blob", "sink"])
     if kind == "dense":
         q = rng.normal(size=(ny, nx))
     elif kind == "sparse":
@@ -45,6 +45,10 @@ def make_source(rng, ny, nx, kind=None):
         q = np.where(np.abs(x - cx) + np.abs(y - cy) < max(nx, ny) / 4.0, 1.0, 0.0)
         if not q.any():
             q[ny // 2, nx // 2] = 1.0
+    elif kind == "sink":  # no positive cell at all (deposition / uptake field)
+        q = -np.abs(rng.normal(size=(ny, nx))) * (rng.random((ny, nx)) < 0.5)
+        if not q.any():
+            q[ny // 2, nx // 2] = -1.0
     else:
         raise ValueError(kind)
     return q, str(kind)
